@@ -269,6 +269,9 @@ def generate(tier, rng):
             b.add(query(qid=rng.getrandbits(16) | 0x0100, questions=((rnd_name(rng), 1, 1),)), dst=dst, dport=dport)
     for _ in range(20):
         b.add(query(qid=rng.getrandbits(16) | 0x0100, questions=((rnd_name(rng), 1, 1),)), v6=True)
+    same = query(qid=0x5151, questions=(((b"cache", b"example"), 1, 1),))
+    for dst in DSTS + DSTS[::-1] + [DSTS[0], DSTS[0], DSTS[3]]:      # an identical datagram, another contacted address
+        b.add(same, dst=dst)
     yield from b.scripts()
     # H. polyglots: messages that are also (prefixes of) another protocol's signature
     b = Batch("polyglots")
